@@ -149,6 +149,10 @@ func derive(rng *rand.Rand, rd routerDef, p gparams, kind string) gparams {
 		}
 	case "salt":
 		q.Salt = rng.Int63()
+	case "chainid": // only the chain-id string inside the header differs (tendermint family)
+		q.ChainTag = 1 + rng.Intn(1000)
+	case "chainid-empty":
+		q.ChainTag = -1
 	default: // all
 		newHeight()
 		q.ValSeed = rng.Int63()
@@ -187,7 +191,7 @@ func TestC19(t *testing.T) {
 	r.Rule("per router × sequence: a universe per batch of sequences (net id ∈ {main,test,solo}, 4-7 poly validators installed through node_manager), per sequence a new " +
 		"side chain of the router registered+approved through side_chain_manager at a drawn poly height, first genesis G1 (height on the router's epoch grid, 1-21 " +
 		"validators, random roots; recorded blobs for zilliqa/zilliqalegacy/starcoin; in one third of the sequences a degenerate-but-accepted document: every field the light client does not need zero / empty, e.g. a tendermint header whose hash is nil) must succeed, then 2-4 later syncGenesisHeader attempts at advancing poly " +
-		"heights, each G1 again or a G2 differing in {height, validators, #validators, other header fields, all}, signed by the consensus operator (1 in 6 only by the " +
+		"heights, each G1 again or a G2 differing in {height, validators, #validators, other header fields, all; tendermint family also: only the chain-id string inside the header (another id / the empty string)}, signed by the consensus operator (1 in 6 only by the " +
 		"chain owner); every G2 is first proved acceptable as a first genesis on another freshly registered chain of the same router; " +
 		"distinct = (router, kind, signer, outcome class, position, net id, #validators bucket)")
 	r.Assume("the header-sync contract's storage namespace (every key under utils.HeaderSyncContractAddress) is the light-client state of the property")
@@ -320,6 +324,9 @@ func TestC19(t *testing.T) {
 					kinds = append(kinds, diffKinds[rng.Intn(len(diffKinds))])
 				}
 			}
+			if rd.HasChainTag { // a genesis for the same poly chain that names another (or no) foreign chain id
+				kinds = append(kinds, []string{"chainid", "chainid-empty"}[seq%2])
+			}
 			rng.Shuffle(len(kinds), func(i, j int) { kinds[i], kinds[j] = kinds[j], kinds[i] })
 
 			for pos, kind := range kinds {
@@ -390,6 +397,9 @@ func TestC19(t *testing.T) {
 					nb = "many"
 				}
 				r.Distinct(rd.Name, kind, signer, class, pos+1, sc.NetID, nb, p1.Minimal)
+				if kind == "chainid" || kind == "chainid-empty" {
+					r.Count("later_other_chain_id_string:"+rd.Name, 1)
+				}
 				if kind == "same" {
 					r.Count("later_same:"+rd.Name, 1)
 				} else {
@@ -442,6 +452,9 @@ func TestC19(t *testing.T) {
 		r.Require("later_diff_operator:"+rd.Name, 1)
 		if rd.Sync != nil {
 			r.Require("header_sync_ok:"+rd.Name, nseq/3)
+		}
+		if rd.HasChainTag {
+			r.Require("later_other_chain_id_string:"+rd.Name, nseq/3)
 		}
 	}
 	sort.Strings(covered)
